@@ -277,6 +277,11 @@ class C05(E1Check):
                     if p is not None:
                         progs.append(p)
         progs += [build_alias(v) for v in range(8)]
+        for shape in ("r", "r(a)", "r(a,b)", "r(a(g))"):
+            for extras in ("gen", "tdres", "svc"):
+                p = build_program(shape, "both", (), extras, "before", "res")
+                if p is not None:
+                    progs.append(dict(p, cancel_leave=True))
         # sibling dependencies while a foreign subscriber of the surrounding context has a full queue
         for shape in ("r(a,b)", "r(a(g),b)"):
             for d in candidate_deps(shape)[::3]:
@@ -307,22 +312,30 @@ class C05(E1Check):
         from contextlib import AsyncExitStack
         import warnings
 
-        async with Context() as ctx, AsyncExitStack() as audit:
-            if program.get("audit"):
-                # somebody else listens to the surrounding context with a one-slot queue and never reads (its queue is full)
-                await audit.enter_async_context(ctx.resource_added.stream_events(max_queue_size=1))
-                ctx.add_resource(RB("filler"), "filler")
-            try:
-                with warnings.catch_warnings():
-                    warnings.simplefilter("ignore")
-                    inst = await start_component(tree.root_class, {}, timeout=None)
-                env.log("returned", inst is tree.instances.get(""))
-            except BaseException as e:  # noqa: BLE001
-                env.log("start-exc", type(e).__name__, str(e)[:200])
-                st["exc"] = e
-            st["visible"] = {n: lab(v) for n, v in ctx.get_resources(RA).items()}
-            st["visible_b"] = {n: lab(v) for n, v in ctx.get_resources(RB).items()}
-            env.log("leaving")
+        import anyio
+
+        leave_scope = anyio.CancelScope()
+        with leave_scope:
+          async with Context() as ctx, AsyncExitStack() as audit:
+              if program.get("audit"):
+                  # somebody else listens to the surrounding context with a one-slot queue and never reads (its queue is full)
+                  await audit.enter_async_context(ctx.resource_added.stream_events(max_queue_size=1))
+                  ctx.add_resource(RB("filler"), "filler")
+              try:
+                  with warnings.catch_warnings():
+                      warnings.simplefilter("ignore")
+                      inst = await start_component(tree.root_class, {}, timeout=None)
+                  env.log("returned", inst is tree.instances.get(""))
+              except BaseException as e:  # noqa: BLE001
+                  env.log("start-exc", type(e).__name__, str(e)[:200])
+                  st["exc"] = e
+              st["visible"] = {n: lab(v) for n, v in ctx.get_resources(RA).items()}
+              st["visible_b"] = {n: lab(v) for n, v in ctx.get_resources(RB).items()}
+              env.log("leaving")
+              if program.get("cancel_leave"):
+                  # the surrounding context is left under cancellation: every teardown callback still runs, in reverse order
+                  leave_scope.cancel()
+                  await anyio.lowlevel.checkpoint()
         env.log("ctx-left")
         self.oracle(env, program, tree, qpoints, st)
 
